@@ -45,6 +45,7 @@ ReMatch(p, s) ==
     [] p = "d3"    -> Len(s) = 3 /\ AllIn(s, Digits)                                       \* ^[0-9]{3}$
     [] p = "alt"   -> s \in {<<"a","b">>, <<"c","d">>, <<"a","b","x">>, <<"c","d","x">>}   \* ^(ab|cd)x?$
     [] p = "digits" -> s # <<>> /\ AllIn(s, Digits)                                         \* ^[0-9]+$
+    [] p = "noparen" -> s # <<>> /\ \A j \in DOMAIN s : s[j] # ")"                           \* ^[^)]+$
     [] OTHER       -> Len(s) = 3 /\ s[1] = "a" /\ s[3] = "c"                               \* ^a.c$   (no newline in the pool)
 
 LowerOf(c) == CASE c = "P" -> "p" [] c = "Y" -> "y" [] c = "T" -> "t" [] c = "H" -> "h" [] c = "O" -> "o" [] c = "N" -> "n" [] OTHER -> c
